@@ -383,24 +383,84 @@ func (e *Engine) chooseP(st *State, guardsIn []*smt.Term, payload []uint64, what
 		}
 	}
 	nUnknown := 0
-	for i, g := range guards {
-		if g.IsFalse() {
-			continue
+	if len(guards) > 6 {
+		// many alternatives: find the feasible ones with one query per feasible alternative
+		// (PC ∧ OR(remaining)), reading off which alternative the model satisfies.
+		rem := map[int]bool{}
+		for i, g := range guards {
+			if !g.IsFalse() {
+				rem[i] = true
+			}
 		}
-		if i == modelPick {
-			feas = append(feas, i)
+		if modelPick >= 0 {
+			feas = append(feas, modelPick)
 			models = append(models, st.Model)
-			continue
+			delete(rem, modelPick)
 		}
-		r, m := e.check(st, g, true)
-		switch r {
-		case smt.Sat:
-			feas = append(feas, i)
-			models = append(models, m)
-		case smt.Unknown:
-			nUnknown++
-			feas = append(feas, i) // keep: unknown = possibly feasible
-			models = append(models, nil)
+		for len(rem) > 0 {
+			or := e.C.False
+			for i := range guards {
+				if rem[i] {
+					or = e.C.Or(or, guards[i])
+				}
+			}
+			r, m := e.check(st, or, true)
+			if r == smt.Unsat {
+				break
+			}
+			if r == smt.Unknown || m == nil {
+				// fall back: keep everything that is left as possibly feasible
+				for i := range guards {
+					if rem[i] {
+						nUnknown++
+						feas = append(feas, i)
+						models = append(models, nil)
+					}
+				}
+				break
+			}
+			memo := map[int]uint64{}
+			hit := false
+			for i := range guards {
+				if rem[i] && smt.Eval(guards[i], m, memo) == 1 {
+					feas = append(feas, i)
+					models = append(models, m)
+					delete(rem, i)
+					hit = true
+				}
+			}
+			if !hit {
+				// the model does not determine an alternative (should not happen): stop conservatively
+				for i := range guards {
+					if rem[i] {
+						feas = append(feas, i)
+						models = append(models, nil)
+					}
+				}
+				break
+			}
+		}
+		sort.Sort(&feasSorter{feas, models})
+	} else {
+		for i, g := range guards {
+			if g.IsFalse() {
+				continue
+			}
+			if i == modelPick {
+				feas = append(feas, i)
+				models = append(models, st.Model)
+				continue
+			}
+			r, m := e.check(st, g, true)
+			switch r {
+			case smt.Sat:
+				feas = append(feas, i)
+				models = append(models, m)
+			case smt.Unknown:
+				nUnknown++
+				feas = append(feas, i) // keep: unknown = possibly feasible
+				models = append(models, nil)
+			}
 		}
 	}
 	if len(feas) == 0 {
@@ -832,3 +892,12 @@ func (e *Engine) simpRec(st *State, t *smt.Term, depth int) *smt.Term {
 	st.simpMemo[t.ID] = r
 	return r
 }
+
+type feasSorter struct {
+	f []int
+	m []map[string]uint64
+}
+
+func (s *feasSorter) Len() int           { return len(s.f) }
+func (s *feasSorter) Less(i, j int) bool { return s.f[i] < s.f[j] }
+func (s *feasSorter) Swap(i, j int)      { s.f[i], s.f[j] = s.f[j], s.f[i]; s.m[i], s.m[j] = s.m[j], s.m[i] }
